@@ -179,6 +179,11 @@ func choose(hash common.Hash, w *big.Int, p float64) int64 {
 	if hb.Cmp(big.NewInt(1)) < 0 {
 		return 0
 	}
+	// the committee can be larger than the total stake (tiny networks): every unit of stake
+	// is then selected with certainty. Without the clamp the binomial routines panic for p > 1.
+	if p > 1 {
+		p = 1
+	}
 	//target=hb/maxVrfHashValue
 	bigValue := new(big.Float).Quo(new(big.Float).SetInt(hb), new(big.Float).SetInt(maxVrfHashValue))
 	target, _ := bigValue.Float64()
